@@ -317,6 +317,19 @@ func solveOne(o *Obligation, opts SolveOpts) {
 	q := o.buildQuery(false)
 	o.Query = q
 	want := o.Expect
+	if o.Cover {
+		// reachability check: one quick attempt, only a refutation counts
+		ans, _, secs := runSolver(solvers[0], q, opts.QuickT)
+		o.Time += secs
+		o.Solver = solvers[0].name
+		o.Answer = ans
+		if ans == "unsat" {
+			o.Status = "failed"
+		} else {
+			o.Status = "discharged"
+		}
+		return
+	}
 	// first attempt: fast solver, short timeout
 	ans, out, secs := runSolver(solvers[0], q, opts.QuickT)
 	o.Time += secs
